@@ -393,3 +393,26 @@ func ParseContractUtxoInputs(tx *pb.Transaction) ([]*protos.TxInput, error) {
 	}
 	return utxoInputs, nil
 }
+
+// ParseContractUtxoOutputs parse contract utxo outputs from tx write sets
+func ParseContractUtxoOutputs(tx *pb.Transaction) ([]*protos.TxOutput, error) {
+	var (
+		utxoOutputs []*protos.TxOutput
+		extOutput   []byte
+	)
+	for _, out := range tx.GetTxOutputsExt() {
+		if out.GetBucket() != TransientBucket {
+			continue
+		}
+		if bytes.Equal(out.GetKey(), contractUtxoOutputKey) {
+			extOutput = out.GetValue()
+		}
+	}
+	if extOutput != nil {
+		err := UnmsarshalMessages(extOutput, &utxoOutputs)
+		if err != nil {
+			return nil, err
+		}
+	}
+	return utxoOutputs, nil
+}
